@@ -146,7 +146,22 @@ def run_component(case):
         for b2 in range(b1 + 1, Bsz):
             if all(torch.equal(v[:, b1], v[:, b2]) for v in xs.values()):
                 differ = False
+    poke = case.get("poke")
     for t in range(T):
+        if poke and poke["at"] == t and case["leg"] == "neuron":
+            # clear(), then write ONE sample's state in place through the public state tensors:
+            # the other samples must keep their (cleared) state
+            b0 = poke["b"] % Bsz
+            with impl(f"clear() then in-place write of sample {b0}'s voltage/refrac before step {t}"):
+                for rig in [big, bigp] + singles:
+                    rig.obj.clear()
+                val, rf = float(poke["v"]), float(poke["r"]) * case["dt"]
+                big.obj.voltage[b0] = val
+                big.obj.refrac[b0] = rf
+                bigp.obj.voltage[perm.index(b0)] = val
+                bigp.obj.refrac[perm.index(b0)] = rf
+                singles[b0].obj.voltage[0] = val
+                singles[b0].obj.refrac[0] = rf
         with impl(f"step {t} batched"):
             ob = big.step(t, {k: v[t] for k, v in xs.items()})
             ob = {k: v.detach().clone() for k, v in ob.items()}
@@ -278,6 +293,9 @@ def component_case(draw, tier="quick"):
         case["neuron"] = {"cls": draw(st.sampled_from(B.NEURONS)), "shape": draw(st.sampled_from([[1], [3], [2, 2]])),
                           "refrac": draw(st.sampled_from([0, 1, 2, 3, 3, 2.5]))}
         case["refrac_lock"] = draw(st.sampled_from([None, True, False]))
+        if draw(st.booleans()):
+            case["poke"] = {"at": draw(st.integers(1, case["steps"] - 1)), "b": draw(st.integers(0, 3)),
+                            "v": draw(st.sampled_from([-58.0, -52.5, -70.0])), "r": draw(st.sampled_from([0, 1, 2]))}
     elif leg == "synapse":
         case["syn"] = {"cls": draw(st.sampled_from(B.SYNAPSES)), "q": 30.0, "interp": draw(st.sampled_from(["previous", "nearest"])),
                        "tol": draw(st.sampled_from([1e-5, 1e-3, 0.0])), "inplace": draw(st.booleans())}
